@@ -988,10 +988,10 @@ where
 /-- `UIntMath<>::Log2` (floor) -/
 def log2 (n : Nat) : Nat := Nat.log2 n
 
-/-- `MergeTo(TreeSet& dst)` for an empty `TreeTraits` class and equal memory managers (TreeSet.h:936-978): `(src, dst)` -/
+/-- `MergeTo(TreeSet& dst)` for an empty `TreeTraits` class and equal memory managers (TreeSet.h:936-984): `(src, dst)` -/
 def mergeTo (cfg : Cfg) (src dst : Tree α) : Tree α × Tree α :=
   if src.count = 0 then (src, dst)
-  else if dst.count = 0 then (dst, src)
+  else if dst.count = 0 then ({ root := none, count := 0 }, src)   -- the destination's (empty) nodes are destroyed, the source keeps nothing
   else
     match src.root, dst.root with
     | some rs, some rd =>
